@@ -8,10 +8,10 @@ package impl
 //	    → "<driver request>\t<obs>;<obs>;…"   obs = OK <goval> | ERR <hex msg> <path> | PANIC <hex msg>
 //	    → "INVALID <hex>" when the schema does not load or the document does not validate
 //	argmapgo <schema hex> <document hex> <opIndex> <coerce 0|1> <goval map>
-//	    → "<driver request>\t<obs>\t<argspec request>\t…" (triples) for every field and directive of the
+//	    → "<driver request>\t<obs>\t<argspec request>\t<argspec request with the linked definitions>\t…" (quadruples) for every field and directive of the
 //	      document; obs = OK <goval> | PANIC <hex msg>; with coerce=1 the variables are first run
 //	      through VariableValues of operation opIndex ("NOCOERCE <obs>" if that fails)
-//	strconvgo pi|pf|pb|quote <hex> ; strconvgo fold <hex> <hex>
+//	strconvgo pi|pf|pb|quote <hex>
 
 import (
 	"encoding/hex"
@@ -165,8 +165,13 @@ func collectVarLinks(v *ast.Value, seen map[string]bool, out *ast.VariableDefini
 	}
 }
 
-func collectSites(doc *ast.QueryDocument) []argSite {
+// collectSites: the field and directive sites of the execution of operation `only` — its own
+// directives, those of its variable definitions, its selection set and the fragments it reaches
+// through spreads; with only == nil every site of the document.
+func collectSites(doc *ast.QueryDocument, only *ast.OperationDefinition) []argSite {
 	var sites []argSite
+	reached := map[string]bool{}
+	var order []string
 	var dirs func(ds ast.DirectiveList, where string)
 	var sels func(ss ast.SelectionSet)
 	dirs = func(ds ast.DirectiveList, where string) {
@@ -196,6 +201,10 @@ func collectSites(doc *ast.QueryDocument) []argSite {
 				sels(f.SelectionSet)
 			case *ast.FragmentSpread:
 				dirs(f.Directives, "spread "+f.Name)
+				if !reached[f.Name] {
+					reached[f.Name] = true
+					order = append(order, f.Name)
+				}
 			case *ast.InlineFragment:
 				dirs(f.Directives, "inline fragment")
 				sels(f.SelectionSet)
@@ -203,11 +212,23 @@ func collectSites(doc *ast.QueryDocument) []argSite {
 		}
 	}
 	for _, o := range doc.Operations {
+		if only != nil && o != only {
+			continue
+		}
 		dirs(o.Directives, "operation "+o.Name)
 		for _, v := range o.VariableDefinitions {
 			dirs(v.Directives, "variable "+v.Variable)
 		}
 		sels(o.SelectionSet)
+	}
+	if only != nil {
+		for i := 0; i < len(order); i++ { // `order` grows while fragments are walked
+			if f := doc.Fragments.ForName(order[i]); f != nil {
+				dirs(f.Directives, "fragment "+f.Name)
+				sels(f.SelectionSet)
+			}
+		}
+		return sites
 	}
 	for _, f := range doc.Fragments {
 		dirs(f.Directives, "fragment "+f.Name)
@@ -279,14 +300,20 @@ func opArgMapGo(a []string) string {
 		vars = res
 	}
 	var out []string
-	for _, st := range collectSites(doc) {
+	var executed *ast.OperationDefinition
+	if idx >= 0 && idx < len(doc.Operations) {
+		executed = doc.Operations[idx]
+	}
+	for _, st := range collectSites(doc, executed) {
 		var opDefs ast.VariableDefinitionList = ast.VariableDefinitionList{}
 		if idx >= 0 && idx < len(doc.Operations) && doc.Operations[idx].VariableDefinitions != nil {
 			opDefs = doc.Operations[idx].VariableDefinitions
 		}
 		// request for the model (linked definitions), Go observation, request for the specification
 		// (the definitions of the operation being executed)
-		out = append(out, argSiteRequest("argmap", st, vars, nil), argMapObs(st.call, vars), argSiteRequest("argspec", st, vars, opDefs))
+		// … and for the specification with the LINKED definitions (classifies a difference: if Go agrees
+		// with this one, the difference is due to the links alone)
+		out = append(out, argSiteRequest("argmap", st, vars, nil), argMapObs(st.call, vars), argSiteRequest("argspec", st, vars, opDefs), argSiteRequest("argspec", st, vars, nil))
 	}
 	return strings.Join(out, "\t")
 }
@@ -330,15 +357,6 @@ func opStrconvGo(a []string) string {
 		return "OK 0"
 	case "quote":
 		return HexW([]byte(strconv.Quote(s)))
-	case "fold":
-		if len(a) < 3 {
-			return "bad-args"
-		}
-		t, _ := UnhexW(a[2])
-		if strings.EqualFold(s, string(t)) {
-			return "1"
-		}
-		return "0"
 	}
 	return "bad-args"
 }
